@@ -144,11 +144,15 @@ func scenario(bodies []string, life string, bounds []int) *vexp.Scenario {
 				vrt.Go(fmt.Sprintf("api%d-%s", ti, b), func() { run(ti, b) })
 			}
 			// the lifecycle transition racing the API calls
+			var stopErr error
 			switch life {
 			case "dying":
 				sys.Kill(refK, false, "driver")
 			case "failing", "restarting":
 				sys.Tell(refF, vsys.Msg{ID: "boom"})
+			case "stopping":
+				// the whole system is stopped while the API calls are in flight: whatever they managed to create goes down with it
+				stopErr = sys.Stop()
 			}
 			vrt.Quiesce()
 			if hasFlood {
@@ -210,7 +214,11 @@ func scenario(bodies []string, life string, bounds []int) *vexp.Scenario {
 				}
 			}
 			x.Outcome(fmt.Sprintf("%v", sysd.Registry))
-			if err := sys.Stop(); err != nil {
+			if life == "stopping" {
+				if stopErr != nil {
+					x.Fail("stop-works", "System.Stop racing %v: %v", bodies, stopErr)
+				}
+			} else if err := sys.Stop(); err != nil {
 				x.Fail("stop-works", "System.Stop after the scenario: %v", err)
 			}
 			vrt.Quiesce()
@@ -255,6 +263,16 @@ func build(tier string) []*vexp.Scenario {
 	}
 	// concurrent senders pushing one mailbox queue across its growth boundary
 	out = append(out, scenario([]string{"flood", "flood"}, "dying", []int{0}))
+	// System.Stop racing the calls (the root is stopping, its children terminate one after the other)
+	for _, b := range []string{"spawn", "tell", "ask", "find", "es", "kill"} {
+		b := b
+		if b == "spawn" {
+			out = append(out, vexp.Split(6, func() *vexp.Scenario { return scenario([]string{b}, "stopping", []int{0, 1, 2}) })...)
+			continue
+		}
+		out = append(out, scenario([]string{b}, "stopping", narrow))
+	}
+	out = append(out, scenario([]string{"spawn", "spawn"}, "stopping", narrow))
 	out = append(out, scenario([]string{"flood", "flood", "tell"}, "failing", []int{0}))
 	return out
 }
